@@ -15,7 +15,7 @@ OPS = {
 # oracle ops whose expected answer is a constant: the request carries the intended result, or the
 # law is evaluated on the real code alone; anything but these answers is an oracle failure
 CONST_OK = {"numlaws", "cmplaws", "containslaws", "keyorder", "tostrcheck", "jpexpect", "kpexpect", "jexpect", "jreject", "fsexpect", "fsreject", "kpreject", "bigpayload", "tjtext", "numcast",
-            "jproundtrip", "kproundtrip", "modes", "tj", "serdecheck", "sniffbig", "chaincheck", "deep"}
+            "jproundtrip", "kproundtrip", "modes", "selreuse", "tj", "serdecheck", "sniffbig", "chaincheck", "deep"}
 OK_ANSWERS = ("ok", "not-accepted", "not-applicable", "skip", "bad-path")
 
 
